@@ -66,6 +66,10 @@ def Frame.calcDlc (f : Frame) : Frame := { f with size := max f.size ((maxBit f.
 /-- `recalc_dlc("force")` for one frame -/
 def Frame.forceDlc (f : Frame) : Frame := { f with size := (maxBit f.sigs + 7) / 8 }
 
+/-- `CanMatrix.recalc_dlc`: the loop over the frames of the matrix (`maxBit = 0` is set anew for every frame) -/
+def recalcDlc (strategy : String) (frames : List Frame) : List Frame :=
+  frames.map fun f => if strategy == "max" then f.calcDlc else if strategy == "force" then f.forceDlc else f
+
 /-- `Frame.fit_dlc` -/
 def fitDlc (size : Nat) : Nat :=
   let rec go (last : Nat) : List Nat → Nat
